@@ -105,6 +105,8 @@ SPEC = {
              "Non-trivial = at least one optional field left out and at least one present, or a string of a special class, or an "
              "HCL-only expression; distinct = hash of the whole description."),
     "floors": {
+        # added after seeded defect C16/m16: HCL-only functions in block attributes of a file WITHOUT any locals block
+        "TestLocals/hcl_functions_without_any_locals_block": 0.1,
         "TestEquivalence/kind_http": 0.29, "TestEquivalence/kind_grpc": 0.19,
         "TestEquivalence/source_file_csv": 0.22, "TestEquivalence/source_file_json": 0.15, "TestEquivalence/source_variables": 0.17,
         "TestEquivalence/variables_rand_func": 0.03, "TestEquivalence/body_absent": 0.2, "TestEquivalence/sources_none": 0.1,
